@@ -6,10 +6,23 @@ det.install()
 import checklib  # noqa: E402
 import core      # noqa: E402
 
-SUITES = {'C01': ('tour', 'sim'), 'C02': ('tour', 'sim'), 'C07': ('tour', 'sim'),
+SUITES = {'C03': ('tour', 'sim'), 'C04': ('tour', 'sim'), 'C05': ('tour', 'sim'), 'C09': ('tour', 'sim'),
+          'C01': ('tour', 'sim'), 'C02': ('tour', 'sim'), 'C07': ('tour', 'sim'),
           'C13': ('tour', 'sim'), 'C14': ('tour', 'sim'), 'C06': ('sched',)}
 
 RULES = {
+    'C03': 'images written at the end of the core behaviours (every k-th, deduplicated by SHA-256) decoded by the '
+           'independent ECMA-119 decoder (decoders/iso9660.py); TLC evaluates the Volume.tla clauses (descriptor set, '
+           'both-endian copies, record packing, 9.3 order, dot/dotdot, sizes, path tables L/M) and ApiMatches '
+           '(decoder tree and SHA-256 = what pycdlib reports); Trace_Model compares the decoded tree with the model',
+    'C04': 'same images: region list of all independent decoders (ISO9660, Rock Ridge continuation areas, UDF, boot '
+           'catalog) + write log of the output object; TLC evaluates NoOverlap, InBounds, ExactLength, WriteOnce, '
+           'NoWritePastEnd; Trace_Model evaluates SharedIffLinked against the link classes of the model',
+    'C05': 'same images: each is opened and written again twice with a constant clock and once with the clock '
+           'advanced by a day; differing bytes are classified by region; TLC evaluates RemasterIdentical, '
+           'RemasterIdempotent, RemasterOnlyModDate',
+    'C09': 'same images (Joliet configurations): the "jol:" clauses of Volume.tla, ApiMatches for the Joliet tree, '
+           'escape sequence = level, and Trace_Model compares the independently decoded Joliet tree and contents with the model',
     'C01': 'behaviours of PyCdlibModel (transition tour per configuration + random deep behaviours from TLC), '
            'replayed on the real PyCdlib; after each behaviour the image is written, opened in a fresh object and '
            'projected through the public API; TLC (Trace_Model) compares trees, kinds, hidden flags, symlink targets '
@@ -55,6 +68,20 @@ def run_for(pid):
             by_trace = {}
             for d in res['diag']:
                 by_trace.setdefault(d['tid'], []).append(d)
+            # image-level clauses (Judge_Image)
+            ctx.note('images_judged', res.get('images_judged', 0))
+            ctx.note('images_remastered', res.get('images_remastered', 0))
+            for tid, clauses in res.get('image_fails', {}).items():
+                mine = sorted(c for c in clauses if pid in core.image_properties(c))
+                if not mine:
+                    continue
+                h = beh.get(tid, [])
+                for c in mine:
+                    sig = {'property': pid, 'clause': c, 'rr': h[0].get('cfg', {}).get('rr', '') if h else '',
+                           'udf': h[0].get('cfg', {}).get('udf', False) if h else False}
+                    ctx.violation(sig, {'clauses': clauses, 'suite': suite},
+                                  {'table': core.TAB, 'history': h,
+                                   'how': 'replay the history, write_fp, decode with decoders/iso9660.py'})
             for tid, ds in by_trace.items():
                 h = beh[tid]
                 tainted = False
@@ -100,6 +127,8 @@ def relevant_history(pid, h):
         return any(n in names for n in ('AddHardLink', 'RmHardLink', 'RmFile'))
     if pid == 'C06':
         return True
+    if pid == 'C09':
+        return bool(h) and h[0].get('cfg', {}).get('joliet', 0) != 0
     return len(h) > 1
 
 
